@@ -23,7 +23,7 @@ func isReleaseCall(cc *ssa.CallCommon) (string, bool) {
 
 func runC06(c *Ctx) {
 	p, r := c.P, c.R
-	r.Explanation = "Decides the pairing discipline between pipeline-set mutations and reference-count updates, each a necessary condition of 'in use iff some registered pipeline lists the node': reference counts are written, and graphMap.Store/Delete called, only in Broker methods under Broker.lock held for writing; every path through a Store increments once per element of the stored pipeline's flattened node set in a full loop before the successful return; every path through a Delete, or through a Store that may replace an entry, either established that no such pipeline exists or releases exactly the ids obtained from graphMap.Nodes for the same key on the same map; increments and releases iterate the same abstraction (the flattened set of the linked list); the release operation's full decision table over count in {0,1,>=2} x force (refuse without effect / unregister and hand back for closing / decrement); every node handed back for closing is closed exactly once, outside the lock, on every path; RemovePipelineAndNodes returns true after the delete. The invariant over arbitrary call histories as such is not decided; these are its inductive-step obligations. C06.registry: the registry only gains fresh records around caller-supplied nodes; C06.flatten: the flattened set contains every linked node; C06.carry: an overwrite decides the count carry-over from the existing entry's policy. C06.close gives-up-only-at-plain-node: NodeController.Close returns without calling a Close only for a node found to be neither a Closer nor a NodeUnwrapper. C06.step: the count of a registered node only moves by one. C06.close who-may-close: a to-be-closed node is produced only by unregisterNode."
+	r.Explanation = "Decides the pairing discipline between pipeline-set mutations and reference-count updates, each a necessary condition of 'in use iff some registered pipeline lists the node': reference counts are written, and graphMap.Store/Delete called, only in Broker methods under Broker.lock held for writing; every path through a Store increments once per element of the stored pipeline's flattened node set in a full loop before the successful return; every path through a Delete, or through a Store that may replace an entry, either established that no such pipeline exists or releases exactly the ids obtained from graphMap.Nodes for the same key on the same map; increments and releases iterate the same abstraction (the flattened set of the linked list); the release operation's full decision table over count in {0,1,>=2} x force (refuse without effect / unregister and hand back for closing / decrement); every node handed back for closing is closed exactly once, outside the lock, on every path; RemovePipelineAndNodes returns true after the delete. The invariant over arbitrary call histories as such is not decided; these are its inductive-step obligations. C06.registry: the registry only gains fresh records around caller-supplied nodes; C06.flatten: the flattened set contains every linked node; C06.carry: an overwrite decides the count carry-over from the existing entry's policy. C06.close gives-up-only-at-plain-node: NodeController.Close returns without calling a Close only for a node found to be neither a Closer nor a NodeUnwrapper. C06.step: the count of a registered node only moves by one. C06.close who-may-close: a to-be-closed node is produced only by unregisterNode. C06.close handoff-private: no method of Broker / graph / graphMap returns a slice or map built on a field of the shared object (the list of nodes to close is the call's own memory)."
 	r.NotDecided = []string{"the reference-count invariant over arbitrary histories (a reachability question over broker states)", "that user Close implementations are idempotent"}
 	tb := p.NewTerms(nil)
 	must := c.MustLocks()
@@ -370,6 +370,7 @@ func runC06(c *Ctx) {
 	c.ruleCloseOnce()
 	c.ruleCloserFirst("C06.close")
 	c.ruleWhoMayClose("C06.close")
+	c.ruleHandoffPrivate("C06.close")
 
 	// --- C06.true
 	if fn := c.Fn("C06.true", PkgRoot, "Broker", "RemovePipelineAndNodes"); fn != nil {
